@@ -15,7 +15,7 @@ from bcsim.ops import REGISTRY
 PROP = "C10"
 TIERS = {
     # runs, wall cap (s), hash seeds of the zygote
-    "quick": dict(runs=1000, wall=900, hashseeds=[0]),
+    "quick": dict(runs=1500, wall=900, hashseeds=[0]),
     "thorough": dict(runs=12000, wall=6 * 3600, hashseeds=[0, 1, 12345]),
 }
 _MEMO = None
